@@ -401,6 +401,42 @@ def closure_family():
         fail("closure with kwargs: score is not the density with the keyword merged")
 
 
+def time_travel_family():
+    """C31 on the real debugger: final value, one frame per recorded call in order, navigation bounds, remix"""
+    from genjax._src.core.compiler.interpreters.time_travel import rec, time_machine
+    g1, g2 = (lambda v: v * 2.0), (lambda v: v - 3.0)
+
+    def f(x):
+        y = rec(g1, "double")(x)
+        w = rec(g2, "minus")(y + 1.0)
+        return w * 10.0
+    for x in (1.5, -2.0):
+        d = time_machine(f)(x)
+        if not close(d.final_retval, f(x)):
+            fail("time_machine: final_retval != f(args)", got=d.final_retval, want=f(x))
+        want = [((x,), f(x)), ((x,), g1(x)), ((g1(x) + 1.0,), g2(g1(x) + 1.0)), ((f(x),), f(x))]
+        if len(d.sequence) != 4:
+            fail("time_machine: not one frame per recorded call", frames=len(d.sequence))
+        else:
+            for i, (fr, (a, r)) in enumerate(zip(d.sequence, want)):
+                if not (close(fr.args[0], a[0]) and close(fr.local_retval, r)):
+                    fail("time_machine: frame does not hold the call's arguments / local return value", frame=i)
+            if d.jump_points != {"_enter": 0, "double": 1, "minus": 2, "exit": 3}:
+                fail("time_machine: jump points are not the frame positions", jp=d.jump_points)
+            e = d
+            for _ in range(6):
+                e = e.fwd()
+            if e.ptr != 3 or d.bwd().ptr != 0 or d.fwd().bwd().ptr != 0 or d.jump("minus").ptr != 2:
+                fail("debugger: jump/fwd/bwd leave the recorded frames or miss a frame", fwd6=e.ptr)
+            r = d.jump("minus").remix(100.0)
+            if not (close(r.final_retval, (100.0 - 3.0) * 10.0) and len(r.sequence) == 4 and close(r.sequence[2].local_retval, 97.0)
+                    and close(r.sequence[1].local_retval, g1(x))):
+                fail("debugger.remix: not f re-run with that call recomputed from the new arguments", final=r.final_retval)
+            r1 = d.jump("double").remix(5.0)
+            if not close(r1.final_retval, ((5.0 * 2.0 + 1.0) - 3.0) * 10.0):
+                fail("debugger.remix at an earlier frame: later record points are not re-run", final=r1.final_retval)
+
+
 def diff_family():
     """C21: Diff helpers on plain, fully tagged and mixed trees"""
     import itertools
@@ -515,7 +551,7 @@ def selection_family():
 
 
 FAMILIES = [
-    (("C19.Mask.", "Mask._or_idx"), mask_algebra_family), (("C18.",), selection_family), ((".Diff.",), diff_family),
+    (("C19.Mask.", "Mask._or_idx"), mask_algebra_family), (("C18.",), selection_family), ((".Diff.",), diff_family), (("C31.",), time_travel_family),
     (("MaskCombinator", "MaskTrace"), mask_family), (("Distribution", "ExactDensity"), distribution_family),
     (("Dimap",), dimap_family), (("Switch",), switch_family), (("Vmap", "repeat"), vmap_family),
     (("Scan", "iterate", "accumulate", "reduce", "masked_iterate"), scan_family),
